@@ -249,6 +249,24 @@ def language_search(e, text, maxlen=6, limit=1200):
     ab = sorted(used_chars(e)) or ['a']
     extra = [c for c in CHARS if c not in ab][:1]
     n = 0
+    if any(x[0] == 'rep' and x[3] >= maxlen for x in subexprs(e)):
+        # large ranges: words whose occurrence counts sit at and next to the bounds
+        import random
+        r = random.Random(len(text))
+        seen = set()
+        for _ in range(60):
+            w = boundary_word(e, r)
+            if len(w) > 400 or w in seen:
+                continue
+            seen.add(w)
+            want = spec_accepts(e, w)
+            try:
+                p.parse(w)
+                got = True
+            except UnexpectedInput:
+                got = False
+            if got != want:
+                return (w, want)
     for w in words_upto(ab + extra, maxlen):
         n += 1
         if n > limit:
@@ -352,3 +370,68 @@ def shared_words(x, nsites, rng):
     import itertools
     for counts in itertools.product(ks, repeat=nsites):
         yield counts, 'd'.join(''.join(sample_operand(x, rng) for _ in range(k)) for k in counts)
+
+
+def boundary_word(e, r):
+    """a word built with occurrence counts at / just outside the bounds of every operator"""
+    k = e[0]
+    if k == 'sym':
+        return CHARS[e[1]]
+    if k == 'seq':
+        return ''.join(boundary_word(x, r) for x in e[1])
+    if k == 'alt':
+        return boundary_word(r.choice(e[1]), r) if e[1] else ''
+    if k == 'opt':
+        n = r.choice([0, 1, 1, 2])
+    elif k == 'star':
+        n = r.choice([0, 1, 2, 3])
+    elif k == 'plus':
+        n = r.choice([0, 1, 1, 2, 3])
+    else:
+        n = r.choice([e[2] - 1, e[2], e[2], e[3], e[3], e[3] + 1, (e[2] + e[3]) // 2])
+        n = max(n, 0)
+    return ''.join(boundary_word(e[1], r) for _ in range(n))
+
+
+def factor_cases(rng, n):
+    """rule bodies whose ~ ranges go through small_factors with factor lists that agree on a prefix and then differ
+    in exactly one component (a or b), or agree on (a, b) after different prefixes: every component of the
+    rules_cache keys of _add_repeat_rule / _add_repeat_opt_rule matters for at least one of them"""
+    from lark.utils import small_factors
+    sf = {k: small_factors(k, 5) for k in range(2, 140)}
+    fam = {'same_a': [], 'same_b': [], 'same_ab_other_target': []}
+    ks = sorted(sf)
+    for i in ks:
+        for j in ks:
+            if j <= i or (i < 50 and j < 50):
+                continue
+            f, g = sf[i], sf[j]
+            for t in range(min(len(f), len(g))):
+                if f[:t] == g[:t] and f[t] != g[t]:
+                    if f[t][0] == g[t][0]:
+                        fam['same_a'].append((i, j))
+                    elif f[t][1] == g[t][1]:
+                        fam['same_b'].append((i, j))
+                    elif t + 1 < min(len(f), len(g)) and f[t + 1] == g[t + 1]:
+                        fam['same_ab_other_target'].append((i, j))
+                    break
+    out = []
+    for name in sorted(fam):
+        pairs = fam[name]
+        if not pairs:
+            continue
+        for _ in range(n):
+            i, j = rng.choice(pairs)
+            if rng.random() < 0.5:
+                i, j = j, i
+            x = ('sym', 0) if rng.random() < 0.7 else ('alt', [('seq', [('sym', 0), ('sym', 1)])])
+            y = x if rng.random() < 0.8 else ('sym', 2)
+            if rng.random() < 0.5 and min(i, j) >= 50:
+                a, b = ('rep', x, i, i), ('rep', y, j, j)                     # mn chains
+            else:
+                lo1, lo2 = rng.choice([0, 0, 1, 7]), rng.choice([0, 0, 2])
+                a, b = ('rep', x, lo1, lo1 + i - 1), ('rep', y, lo2, lo2 + j - 1)   # diff chains (diff = i, j)
+                if a[3] < 50 or b[3] < 50:
+                    a, b = ('rep', x, 50, 50 + i - 1), ('rep', y, 50, 50 + j - 1)
+            out.append(('alt', [('seq', [a, SEP, b])]))
+    return out
